@@ -350,6 +350,69 @@ func (w *sliceWeb) addrCell(addr ssa.Value) ssa.Value {
 		return w.cellRoot(addr)
 	case *ssa.FieldAddr:
 		return w.fieldCell(x)
+	case *ssa.Parameter, *ssa.UnOp:
+		if w.deep {
+			return w.ptrCell(addr, 0)
+		}
+	}
+	return nil
+}
+
+// ptrCell: the variable cell a pointer to a slice denotes when the variable is handed by address (`&pending`) to a
+// helper with a single call: the helper's pointer parameter stands for the cell of the operand of that call, also
+// when the parameter is read back from the variable it was spilled to (a literal of the helper captures it), as
+// long as that variable is assigned nowhere else.
+func (w *sliceWeb) ptrCell(addr ssa.Value, depth int) ssa.Value {
+	if depth > 4 {
+		return nil
+	}
+	pt, isP := addr.Type().Underlying().(*types.Pointer)
+	if !isP || !isSliceT(pt.Elem()) {
+		return nil
+	}
+	switch x := addr.(type) {
+	case *ssa.Alloc, *ssa.FreeVar, *ssa.FieldAddr:
+		return w.addrCell(addr)
+	case *ssa.Parameter:
+		h := x.Parent()
+		cl := w.site[h]
+		if cl == nil {
+			return nil
+		}
+		for i, par := range h.Params {
+			if par == x && i < len(cl.Common().Args) {
+				return w.ptrCell(cl.Common().Args[i], depth+1)
+			}
+		}
+	case *ssa.UnOp:
+		if x.Op != token.MUL {
+			return nil
+		}
+		switch x.X.(type) {
+		case *ssa.Alloc, *ssa.FreeVar:
+		default:
+			return nil
+		}
+		root := w.cellRoot(x.X)
+		if _, isAl := root.(*ssa.Alloc); !isAl {
+			return nil
+		}
+		var vals []ssa.Value
+		for _, f := range w.fns {
+			ssau.Instrs(f, func(in ssa.Instruction) {
+				if st, ok := in.(*ssa.Store); ok && st.Val.Type() == addr.Type() {
+					switch st.Addr.(type) {
+					case *ssa.Alloc, *ssa.FreeVar:
+						if w.cellRoot(st.Addr) == root {
+							vals = append(vals, st.Val)
+						}
+					}
+				}
+			})
+		}
+		if len(vals) == 1 {
+			return w.ptrCell(vals[0], depth+1)
+		}
 	}
 	return nil
 }
